@@ -17,10 +17,24 @@ package notifier
 //   pace <mi> <groups> <events>   sendEvaluatorRequests under the virtual clock; t <now> = let the loop iterate at
 //                             clock now, r <now> <list> = processConsumerList with that consumer list.
 //
+//   cfg <src> <root> <slow> <mods> <now0> <groups> <events>
+//                             the REAL Coordinator.Configure on a generated viper configuration (src = set: viper.Set,
+//                             toml: viper.ReadConfig of a TOML document; per module: name id, class null/http/email, and
+//                             the interval / send-interval / threshold keys, '-' = absent, prefix L/F/S = int64 / float /
+//                             string value), prints MI:<nc.minInterval>; then the loop it configured is Started with
+//                             the scripted fake lock and driven under the virtual clock -- minInterval, doEvaluations and
+//                             the set of known groups (storage replies) are all produced by the real code:
+//                               k <now>  clock := now; complete a pending Unlock() with nil, then the pending Lock() with nil
+//                               e        complete the pending Lock() with an error (and wait for the next Lock() call)
+//                               x        Broadcast the expiry (connection stays up), wait for the Unlock() call
+//                               t <now>  clock := now, let the request loop iterate
+//                               r <now> <list>  group list refresh at clock now
+//
 // Loop scenarios use the real clock and run in parallel on separate Coordinators; pace cases run afterwards, serially.
 
 import (
 	"bufio"
+	"bytes"
 	"errors"
 	"fmt"
 	"os"
@@ -33,6 +47,7 @@ import (
 	"time"
 
 	zk "github.com/linkedin/go-zk"
+	"github.com/spf13/viper"
 
 	"github.com/linkedin/Burrow/core/protocol"
 )
@@ -108,6 +123,8 @@ type vScenario struct {
 	lastArr atomic.Int64 // unix nanos of the latest arrival
 	badReq  atomic.Int32
 	stop    chan struct{}
+	badMI   bool
+	mi      int64
 }
 
 func vGraceMult() time.Duration {
@@ -120,9 +137,13 @@ func vGraceMult() time.Duration {
 // vNewScenario must be called serially (fixtureCoordinator/Configure use viper's global state).
 func vNewScenario(conn0 bool) *vScenario {
 	nc := fixtureCoordinator()
+	// interval 0: every iteration of sendEvaluatorRequests re-evaluates (a heartbeat while doEvaluations holds).  The
+	// value reaches nc.minInterval through the real Configure; if it does not, the scenario is not run (badMI).
+	viper.Set("notifier.test.interval", 0)
 	nc.Configure()
-	nc.minInterval = 0 // every iteration of sendEvaluatorRequests re-evaluates: a heartbeat while doEvaluations holds
 	sc := &vScenario{nc: nc, stop: make(chan struct{})}
+	sc.badMI = nc.minInterval != 0
+	sc.mi = nc.minInterval
 	sc.lock = &vFakeLock{app: nc.App, lockRes: make(chan vLockResult), unlockRes: make(chan error)}
 	sc.zk = &vFakeZk{lock: sc.lock}
 	nc.App.Zookeeper = sc.zk
@@ -159,6 +180,9 @@ func vWaitFlag(f *atomic.Int32, d time.Duration) bool {
 }
 
 func (sc *vScenario) run(steps []string) string {
+	if sc.badMI {
+		return fmt.Sprintf("BADMI:%d", sc.mi)
+	}
 	m := vGraceMult()
 	settle := 260 * time.Millisecond * m
 	window := 60 * time.Millisecond * m
@@ -434,6 +458,526 @@ func vPace(f []string) (res string) {
 	return strings.Join(out, " ")
 }
 
+// ---- configuration + configured loop ---------------------------------------------------------------------------
+
+type vModCfg struct {
+	name, class string
+	keys        [3]string // interval, send-interval, threshold tokens ("-" = absent)
+}
+
+var vCfgKeys = [3]string{"interval", "send-interval", "threshold"}
+
+func vTokVal(tok string) (kind byte, v int64) {
+	kind = 'I'
+	num := tok
+	switch tok[0] {
+	case 'L', 'F', 'S':
+		kind = tok[0]
+		num = tok[1:]
+	}
+	v, err := strconv.ParseInt(num, 10, 64)
+	if err != nil {
+		panic(err)
+	}
+	return kind, v
+}
+
+func vClassKeys(class string) [][2]string {
+	switch class {
+	case "http":
+		return [][2]string{{"url-open", "http://localhost:1/open"}}
+	case "email":
+		return [][2]string{{"server", "smtp.example.com"}, {"from", "burrow@example.com"}, {"to", "oncall@example.com"}}
+	}
+	return nil
+}
+
+func vLoadConfig(src string, mods []vModCfg) error {
+	viper.Reset()
+	if src == "set" {
+		for _, m := range mods {
+			root := "notifier." + m.name + "."
+			viper.Set(root+"class-name", m.class)
+			viper.Set(root+"template-open", "template_open")
+			for _, kv := range vClassKeys(m.class) {
+				viper.Set(root+kv[0], kv[1])
+			}
+			if m.class == "email" {
+				viper.Set(root+"port", 25)
+			}
+			for k, tok := range m.keys {
+				if tok == "-" {
+					continue
+				}
+				kind, v := vTokVal(tok)
+				switch kind {
+				case 'I':
+					viper.Set(root+vCfgKeys[k], int(v))
+				case 'L':
+					viper.Set(root+vCfgKeys[k], v)
+				case 'F':
+					viper.Set(root+vCfgKeys[k], float64(v))
+				case 'S':
+					viper.Set(root+vCfgKeys[k], strconv.FormatInt(v, 10))
+				}
+			}
+		}
+		return nil
+	}
+	var b bytes.Buffer
+	b.WriteString("[general]\npidfile = \"x\"\n")
+	for _, m := range mods {
+		fmt.Fprintf(&b, "[notifier.%s]\nclass-name = %q\ntemplate-open = \"template_open\"\n", m.name, m.class)
+		for _, kv := range vClassKeys(m.class) {
+			fmt.Fprintf(&b, "%s = %q\n", kv[0], kv[1])
+		}
+		if m.class == "email" {
+			b.WriteString("port = 25\n")
+		}
+		for k, tok := range m.keys {
+			if tok == "-" {
+				continue
+			}
+			kind, v := vTokVal(tok)
+			switch kind {
+			case 'I', 'L':
+				fmt.Fprintf(&b, "%s = %d\n", vCfgKeys[k], v)
+			case 'F':
+				fmt.Fprintf(&b, "%s = %d.0\n", vCfgKeys[k], v)
+			case 'S':
+				fmt.Fprintf(&b, "%s = \"%d\"\n", vCfgKeys[k], v)
+			}
+		}
+	}
+	viper.SetConfigType("toml")
+	return viper.ReadConfig(&b)
+}
+
+func vCfg(f []string) (res string) {
+	i := 0
+	next := func() string { s := f[i]; i++; return s }
+	nextI := func() int64 {
+		v, err := strconv.ParseInt(next(), 10, 64)
+		if err != nil {
+			panic(err)
+		}
+		return v
+	}
+	src, root, slow := next(), next(), next() == "1"
+	nm := int(nextI())
+	mods := make([]vModCfg, nm)
+	for k := range mods {
+		mods[k].name = "m" + next()
+		mods[k].class = next()
+		for j := 0; j < 3; j++ {
+			mods[k].keys[j] = next()
+		}
+	}
+	nc := fixtureCoordinator()
+	nc.App.ZookeeperRoot = root
+	if err := vLoadConfig(src, mods); err != nil {
+		return "CFGLOADERR:" + strings.ReplaceAll(err.Error(), " ", "_")
+	}
+	cfgPanic := false
+	func() {
+		defer func() {
+			if r := recover(); r != nil {
+				cfgPanic = true
+			}
+		}()
+		nc.Configure()
+	}()
+	if cfgPanic {
+		return "CFGPANIC"
+	}
+	mi := nc.minInterval
+	out := []string{fmt.Sprintf("MI:%d", mi), fmt.Sprintf("NM:%d", len(nc.modules))}
+	now0 := nextI()
+	ng := int(nextI())
+	type gle struct {
+		g  int
+		le int64
+	}
+	groups := make([]gle, ng)
+	for k := range groups {
+		groups[k] = gle{int(nextI()), nextI()}
+	}
+	nev := int(nextI())
+	if nev == 0 {
+		return strings.Join(out, " ")
+	}
+
+	m := vGraceMult()
+	callWait := 1500 * time.Millisecond * m
+	lock := &vFakeLock{app: nc.App, lockRes: make(chan vLockResult), unlockRes: make(chan error)}
+	fzk := &vFakeZk{lock: lock}
+	nc.App.Zookeeper = fzk
+	nc.App.ZookeeperConnected = true
+
+	// evaluator side: every request that arrives, in arrival order; `hold` models a slow evaluator (nothing is read
+	// from the channel while it is set)
+	var mu sync.Mutex
+	var got []string
+	var hold atomic.Int32
+	stop := make(chan struct{})
+	go func() {
+		for {
+			if hold.Load() == 1 {
+				select {
+				case <-stop:
+					return
+				case <-time.After(200 * time.Microsecond):
+				}
+				continue
+			}
+			select {
+			case r := <-nc.App.EvaluatorChannel:
+				mu.Lock()
+				if r.Cluster != vCluster(vGid(r.Group)) || r.ShowAll || r.Reply != nc.evaluatorResponse {
+					got = append(got, "BAD")
+				} else {
+					got = append(got, r.Group)
+				}
+				mu.Unlock()
+			case <-time.After(300 * time.Microsecond):
+			case <-stop:
+				return
+			}
+		}
+	}()
+	// storage side: cluster list and consumer lists for the group refresh
+	var stMu sync.Mutex
+	stLists := map[string][]string{}
+	var stServed, stClServed atomic.Int32
+	go func() {
+		for {
+			select {
+			case r := <-nc.App.StorageChannel:
+				stMu.Lock()
+				var reply interface{}
+				switch r.RequestType {
+				case protocol.StorageFetchClusters:
+					cl := make([]string, 0, len(stLists))
+					for c := range stLists {
+						cl = append(cl, c)
+					}
+					sort.Strings(cl)
+					reply = cl
+				case protocol.StorageFetchConsumers:
+					reply = append([]string(nil), stLists[r.Cluster]...)
+				}
+				stMu.Unlock()
+				if reply != nil {
+					r.Reply <- reply
+					if r.RequestType == protocol.StorageFetchConsumers {
+						stServed.Add(1)
+					} else {
+						stClServed.Add(1)
+					}
+				}
+			case <-stop:
+				return
+			}
+		}
+	}()
+	defer close(stop)
+	take := func() []string {
+		last := -1
+		for k := 0; k < 200; k++ {
+			time.Sleep(6 * time.Millisecond)
+			mu.Lock()
+			n := len(got)
+			mu.Unlock()
+			if n == last {
+				break
+			}
+			last = n
+		}
+		mu.Lock()
+		defer mu.Unlock()
+		r := got
+		got = nil
+		return r
+	}
+	fmtIDs := func(tag string, gs []string) string {
+		ids := make([]int, 0, len(gs))
+		bad := false
+		for _, g := range gs {
+			if g == "BAD" {
+				bad = true
+				continue
+			}
+			ids = append(ids, vGid(g))
+		}
+		sort.Ints(ids)
+		ss := make([]string, len(ids))
+		for j, v := range ids {
+			ss[j] = strconv.Itoa(v)
+		}
+		o := tag + strings.Join(ss, ",")
+		if bad {
+			o += "BAD"
+		}
+		return o
+	}
+	// refresh runs the group refresh with the given lists: through the storage requests the ticker loop issues when the
+	// implementation's minInterval is positive (rand.Int63n cannot panic in a goroutine the probe does not own), by
+	// calling processConsumerList directly under recover otherwise.  Returns false on a panic.
+	refresh := func(lists map[string][]string) bool {
+		if mi > 0 {
+			stMu.Lock()
+			for c := range stLists {
+				delete(stLists, c)
+			}
+			n := 0
+			for c, l := range lists {
+				if len(l) > 0 {
+					stLists[c] = l
+					n++
+				}
+			}
+			stMu.Unlock()
+			before, beforeCl := stServed.Load(), stClServed.Load()
+			nc.sendClusterRequest()
+			deadline := time.Now().Add(callWait)
+			for (int(stServed.Load()-before) < n || stClServed.Load() == beforeCl) && time.Now().Before(deadline) {
+				time.Sleep(200 * time.Microsecond)
+			}
+			time.Sleep(3 * time.Millisecond)
+			nc.clusterLock.Lock()
+			nc.clusterLock.Unlock() //nolint
+			return true
+		}
+		panicked := false
+		nc.clusterLock.Lock()
+		for c := 0; c < 3; c++ {
+			cl := "c" + strconv.Itoa(c)
+			if _, ok := nc.clusters[cl]; !ok {
+				nc.clusters[cl] = &clusterGroups{Lock: &sync.RWMutex{}, Groups: make(map[string]*consumerGroup)}
+			}
+		}
+		nc.clusterLock.Unlock()
+		for c := 0; c < 3 && !panicked; c++ {
+			cl := "c" + strconv.Itoa(c)
+			func() {
+				defer func() {
+					if r := recover(); r != nil {
+						panicked = true // (the cluster entry stays write-locked: the case ends here)
+					}
+				}()
+				ch := make(chan interface{}, 1)
+				ch <- lists[cl]
+				nc.running.Add(1)
+				nc.processConsumerList(cl, ch)
+			}()
+		}
+		return !panicked
+	}
+	existing := func() map[string]bool {
+		before := map[string]bool{}
+		nc.clusterLock.RLock()
+		for _, cg := range nc.clusters {
+			cg.Lock.RLock()
+			for name := range cg.Groups {
+				before[name] = true
+			}
+			cg.Lock.RUnlock()
+		}
+		nc.clusterLock.RUnlock()
+		return before
+	}
+
+	defer func() {
+		nc.Stop()
+		time.Sleep(3 * time.Millisecond)
+		VerifSetClock(0)
+	}()
+
+	// initial groups: the entries are created by the real refresh path, then LastEval is set to the scripted value
+	VerifSetClock(now0)
+	{
+		lists := map[string][]string{}
+		for _, g := range groups {
+			lists[vCluster(g.g)] = append(lists[vCluster(g.g)], "g"+strconv.Itoa(g.g))
+		}
+		if mi <= 0 {
+			nc.clusterLock.Lock()
+			for c, l := range lists {
+				nc.clusters[c] = &clusterGroups{Lock: &sync.RWMutex{}, Groups: make(map[string]*consumerGroup)}
+				for _, name := range l {
+					nc.clusters[c].Groups[name] = &consumerGroup{LastNotify: make(map[string]time.Time), LastEval: time.Unix(0, 0)}
+				}
+			}
+			nc.clusterLock.Unlock()
+		} else if !refresh(lists) {
+			return strings.Join(append(out, "INITPANIC"), " ")
+		}
+		nc.clusterLock.RLock()
+		n := 0
+		for _, g := range groups {
+			if cg, ok := nc.clusters[vCluster(g.g)]; ok {
+				cg.Lock.Lock()
+				if gi, ok := cg.Groups["g"+strconv.Itoa(g.g)]; ok {
+					gi.LastEval = time.Unix(0, g.le)
+					n++
+				}
+				cg.Lock.Unlock()
+			}
+		}
+		total := 0
+		for _, cg := range nc.clusters {
+			total += len(cg.Groups)
+		}
+		nc.clusterLock.RUnlock()
+		if n != ng || total != ng {
+			return strings.Join(append(out, fmt.Sprintf("INITGROUPS:%d/%d", n, total)), " ")
+		}
+	}
+
+	if err := nc.Start(); err != nil {
+		return strings.Join(append(out, "STARTERR"), " ")
+	}
+	var sentLock, sentUnlock int32
+	waitCall := func(c *atomic.Int32, sent int32, d time.Duration) bool {
+		deadline := time.Now().Add(d)
+		for time.Now().Before(deadline) {
+			if c.Load() > sent {
+				return true
+			}
+			time.Sleep(500 * time.Microsecond)
+		}
+		return c.Load() > sent
+	}
+	pendLetter := func() string {
+		if lock.lockCalls.Load() > sentLock {
+			return "L"
+		}
+		if lock.unlockCalls.Load() > sentUnlock {
+			return "U"
+		}
+		return "-"
+	}
+	if !waitCall(&lock.lockCalls, sentLock, callWait) {
+		return strings.Join(append(out, "NOLOCKCALL"), " ")
+	}
+	for k := 0; k < nev; k++ {
+		switch next() {
+		case "k":
+			now := nextI()
+			VerifSetClock(now)
+			bad := false
+			if lock.unlockCalls.Load() > sentUnlock {
+				lock.unlockRes <- nil
+				sentUnlock++
+			}
+			if waitCall(&lock.lockCalls, sentLock, callWait) {
+				if slow {
+					hold.Store(1)
+				}
+				lock.lockRes <- vLockResult{}
+				sentLock++
+				if slow {
+					time.Sleep(5 * time.Millisecond)
+					hold.Store(0)
+				}
+				time.Sleep(8 * time.Millisecond)
+			} else {
+				bad = true
+			}
+			o := fmtIDs("K:", take())
+			if bad {
+				o = "!" + o
+			}
+			out = append(out, o)
+		case "e":
+			if waitCall(&lock.lockCalls, sentLock, callWait) {
+				lock.lockRes <- vLockResult{err: errors.New("scripted lock failure")}
+				sentLock++
+				// the loop sleeps 100 ms and calls Lock() again
+				waitCall(&lock.lockCalls, sentLock, callWait)
+				out = append(out, "E"+pendLetter())
+			} else {
+				out = append(out, "!E"+pendLetter())
+			}
+		case "x":
+			nc.App.ZookeeperExpired.Broadcast()
+			waitCall(&lock.unlockCalls, sentUnlock, 100*time.Millisecond*m)
+			out = append(out, "X"+pendLetter())
+		case "t":
+			now := nextI()
+			if slow {
+				hold.Store(1)
+			}
+			VerifSetClock(now)
+			if slow {
+				time.Sleep(5 * time.Millisecond) // several iterations of the request loop with nobody reading the channel
+				hold.Store(0)
+			}
+			time.Sleep(8 * time.Millisecond)
+			out = append(out, fmtIDs("T:", take()))
+		case "r":
+			now := nextI()
+			n := int(nextI())
+			VerifSetClock(now)
+			lists := map[string][]string{"c0": nil, "c1": nil, "c2": nil}
+			draws := map[string]int64{}
+			for j := 0; j < n; j++ {
+				g, r := int(nextI()), nextI()
+				name := "g" + strconv.Itoa(g)
+				lists[vCluster(g)] = append(lists[vCluster(g)], name)
+				draws[name] = r
+			}
+			before := existing()
+			if !refresh(lists) {
+				out = append(out, "PANIC")
+				return strings.Join(out, " ")
+			}
+			rangeBad := false
+			type ent struct {
+				g  int
+				le int64
+			}
+			var es []ent
+			nc.clusterLock.RLock()
+			for _, cg := range nc.clusters {
+				cg.Lock.Lock()
+				for name, gi := range cg.Groups {
+					if !before[name] {
+						d := now - gi.LastEval.UnixNano()
+						if d < 0 || d >= mi*1000*1000000 || d%1000000 != 0 {
+							rangeBad = true
+						}
+						gi.LastEval = time.Unix(0, now-draws[name]*1000000)
+					}
+					es = append(es, ent{vGid(name), gi.LastEval.UnixNano()})
+				}
+				cg.Lock.Unlock()
+			}
+			nc.clusterLock.RUnlock()
+			sort.Slice(es, func(a, b int) bool { return es[a].g < es[b].g })
+			ents := make([]string, len(es))
+			for j, e := range es {
+				ents[j] = fmt.Sprintf("%d=%d", e.g, e.le)
+			}
+			o := "R:" + strings.Join(ents, ",")
+			if rangeBad {
+				o += "RANGEBAD"
+			}
+			// requests issued while the list was being refreshed belong to no tick of the script
+			if extra := take(); len(extra) > 0 {
+				o += fmtIDs("+", extra)
+			}
+			out = append(out, o)
+		default:
+			return "BADEVENT"
+		}
+	}
+	if p, _ := fzk.lockPath.Load().(string); p != root+"/notifier" {
+		out = append(out, "BADLOCKPATH:"+p)
+	}
+	return strings.Join(out, " ")
+}
+
 // ---- driver --------------------------------------------------------------------------------------------------
 
 func TestVerifProbeEvalloop(t *testing.T) {
@@ -492,6 +1036,8 @@ func TestVerifProbeEvalloop(t *testing.T) {
 		case "loop":
 		case "pace":
 			res[i] = vPace(f[1:])
+		case "cfg":
+			res[i] = vCfg(f[1:])
 		default:
 			t.Fatalf("unknown case kind in %q", l)
 		}
